@@ -93,6 +93,11 @@ static void blk_malformed(void) {
 			uint8_t b[440]; size_t l = 0; l += der_put_uint(b + l, e1, 32); l += der_put_uint(b + l, e1 + 32, 32); l += der_put_tlv(b + l, 0x04, end ? e3 : e3 + 1, 31); l += der_put_tlv(b + l, 0x04, e2, n); size_t ml = der_put_tlv(m, 0x30, b, l); offer(end ? "malformed:c3-trailing-zero-cut" : "malformed:c3-leading-zero-cut", d, m, ml);
 			uint8_t e33[33]; memset(e33, 0, 33); memcpy(e33 + (end ? 0 : 1), e3, 32); l = 0; l += der_put_uint(b + l, e1, 32); l += der_put_uint(b + l, e1 + 32, 32); l += der_put_tlv(b + l, 0x04, e33, 33); l += der_put_tlv(b + l, 0x04, e2, n); ml = der_put_tlv(m, 0x30, b, l); offer(end ? "malformed:c3-zero-appended" : "malformed:c3-zero-prepended", d, m, ml);
 			ml = enc_ct(m, e1, e3, e2, n); offer("malformed:c3-with-zero-octet-untouched", d, m, ml); }
+		/* the LARGEST ciphertext the interfaces admit (255-byte plaintext, both C1 coordinates with a sign octet = SM2_MAX_CIPHERTEXT_SIZE) followed by
+		   extra bytes: the streaming decryptor's buffer is exactly that large, so this is where "input too long" and "trailing bytes" meet */
+		if (li == 2 && vh_next()) { uint8_t e1[64], e3[32], e2[256]; int got = 0; for (unsigned kv = 7000; kv < 7400 && !got; kv++) { BN_set_word(t, 0xc2b2ae35u * kv + d); bn_to_be(kb, t); if (sr_encrypt(PUB[d], kb, PT[2], 255, e1, e3, e2) && (e1[0] & 0x80) && (e1[32] & 0x80)) got = 1; }
+			if (!got) vh_obs("no nonce giving a maximum-size ciphertext found"); else { size_t ml = enc_ct(m, e1, e3, e2, 255); if (ml != SM2_MAX_CIPHERTEXT_SIZE) vh_harness_error("expected a %d-byte ciphertext, got %zu", SM2_MAX_CIPHERTEXT_SIZE, ml); offer("malformed:max-size-untouched", d, m, ml);
+				static const size_t EX[] = { 1, 2, 16, 100 }; for (int x = 0; x < 4; x++) { uint8_t big[600]; memcpy(big, m, ml); memset(big + ml, x ? 0x30 : 0x00, EX[x]); offer("malformed:max-size-with-trailing-bytes", d, big, ml + EX[x]); } } }
 		if (!vh_next()) continue;
 		/* C1 substitutions */
 		{ uint8_t v1[64]; const BIGNUM *p = sr_p(); BIGNUM *y = BN_new();
